@@ -45,6 +45,8 @@ def run_history(ctx, rng, length, hid):
     sim = davsim.Sim(ctx)
     reqs = []
     etag_of_content = {}     # stored text -> etag
+    coll_etags = {}          # collection ETag -> state signature
+    coll_sigs = {}
     try:
         # fixed scaffold: two calendars and an address book
         for r in ({"method": "MKCALENDAR", "path": ["u", "c1"], "props": []}, {"method": "MKCALENDAR", "path": ["u", "c2"], "props": []},
@@ -60,6 +62,10 @@ def run_history(ctx, rng, length, hid):
                 r = {"method": "PUT", "path": coll + [href], "body": "cards" if coll[-1] == "ab" else "cal", "objs": [rng.choice(pool)]}
             elif k < 0.8:
                 r = {"method": "DELETE", "path": coll + [href], "as_collection": False}
+            elif k < 0.86 and coll[-1] != "ab":
+                # renaming keeps the contents of the collection but not its members' names
+                r = {"method": "MOVE", "path": coll + [href], "dest": rng.choice([coll, ["u", "c1"], ["u", "c2"]]) + [rng.choice(["a.ics", "b.ics", "z.ics"])],
+                     "overwrite": rng.random() < 0.5}
             elif k < 0.9:
                 r = {"method": "PROPPATCH", "path": coll, "as_collection": True, "set": [["D:displayname", "n%d" % rng.randint(0, 5)]], "remove": [],
                      "sets_type": False, "bad_body": False}
@@ -117,6 +123,28 @@ def run_history(ctx, rng, length, hid):
                     if e2 == obs["etag_raw"] and t2 != text:
                         ctx.violation("different content, same ETag", case)
                 etag_of_content[text] = obs["etag_raw"]
+            # the collection ETag identifies members (names and contents) and properties
+            for e in sim.real_dump():
+                if len(e["path"]) != 2:
+                    continue
+                cpath = "/" + "/".join(e["path"]) + "/"
+                stc, _, textc = sim.app.request("PROPFIND", cpath, davsim.PROPFIND_BODY, login="u:pw", HTTP_DEPTH="0")
+                if stc != 207:
+                    continue
+                msc, orderc, _ = davsim.parse_multistatus(textc)
+                pr = msc.get(orderc[0]) if orderc else None
+                cet = pr.get("D:getetag") if isinstance(pr, dict) else None
+                if cet is None or cet[0] != 200:
+                    continue
+                sig = (cpath, tuple(sorted((it["href"], it["etag_raw"]) for it in e["items"])), tuple(map(tuple, e["props"])), e["tag"])
+                ek = (cpath, cet[1].text)        # ETags are compared per resource
+                if ek in coll_etags and coll_etags[ek] != sig:
+                    ctx.violation("two different states of a collection (members / names / properties) have the same collection ETag",
+                                  dict(case, collection=cpath, state_a=str(coll_etags[ek])[:300], state_b=str(sig)[:300]))
+                if sig in coll_sigs and coll_sigs[sig] != cet[1].text:
+                    ctx.violation("the same state of a collection has two different collection ETags", dict(case, collection=cpath))
+                coll_etags[ek] = sig
+                coll_sigs[sig] = cet[1].text
             if diffs:
                 ctx.disagree("conditional request history vs model", case, diffs[:3], ans["status"] if ans else None)
                 return
